@@ -6,5 +6,5 @@ CONSTANTS
   MCConfig = 0
   Scenarios <- QuickScenarios
 SPECIFICATION MCSpecSet
-INVARIANT QueueInvariants
+INVARIANTS AtMostOnce ExactlyOnce LaneBound BgBound CompletionOnce OutputBeforeCompletion StatusTable ChildrenReaped
 PROPERTY NoSpawnAfterCancel
